@@ -33,6 +33,24 @@ MIN_EVALUATIONS = {"quick": 100, "thorough": 1000}
 N = {"quick": 2400, "thorough": 60000}
 
 
+def _translate(spec, rng):
+    """Swarm knob: the same model far from the origin (coordinates of 1e3 .. 3e8): absolute tolerances and
+    rounding then act on very different scales.  Constrained systems keep the constrained coordinates in place
+    (the wavy curve constrains coordinates 0 and 1 only)."""
+    mag = rng.choice([1e3, 1e5, 1e7, 3e8])
+    if spec["kind"] in ("con", "gcon"):
+        spec["constraint"] = "wavy"
+        if spec["dim"] < 3:
+            spec["dim"] = 3
+            t = spec["target"]
+            spec["target"] = zoo.quartic_from_seed(rng, 3, offset=t.get("offset", 0.0), scale=t.get("scale", 1.0))
+            spec["metric"] = zoo.random_metric_spec(rng, 3, (spec["metric"]["type"],))
+        spec["target"]["center"] = [0.0, 0.0] + [mag * rng.choice([-1.0, 1.0]) for _ in range(spec["dim"] - 2)]
+    else:
+        spec["target"]["center"] = [mag * rng.choice([-1.0, 1.0]) for _ in range(spec["dim"])]
+    spec["translated"] = mag
+
+
 def scenarios(tier, seed):
     out = []
     kinds = list(zoo.SYSTEM_KINDS)
@@ -43,6 +61,8 @@ def scenarios(tier, seed):
         if stress:
             kind = rng.choice(["con", "gcon"])
         spec = zoo.random_system_spec(rng, kinds=(kind,), dims=(1, 2, 3))
+        if rng.random() < (0.3 if stress else 0.1) and kind in ("euclid", "con"):  # Gaussian-split systems have the origin built into their h2 flow
+            _translate(spec, rng)
         ispec = zoo.random_integrator_spec(rng, spec["kind"], step_size=rng.choice([0.02, 0.1, 0.3, 0.7]), allow_implicit_for_tractable=rng.random() < 0.4)
         if stress:
             ispec["n_inner_step"] = rng.choice([2, 3, 4])
@@ -137,12 +157,13 @@ def lattice_history(scn, region, viols, stats):
             a, b = fwd[n - k], rev[k]
             za = np.concatenate([np.ravel(a.pos), np.ravel(a.mom)])
             zb = np.concatenate([np.ravel(b.pos), np.ravel(b.mom)])
-            if not (np.all(np.isfinite(za)) and np.all(np.isfinite(zb))) or max(np.abs(za).max(), np.abs(zb).max()) > 1e8:
+            cz = fs.translation_vector(scn["system"]["target"].get("center"), za.size)
+            if not (np.all(np.isfinite(za)) and np.all(np.isfinite(zb))) or max(np.abs(za - cz).max(), np.abs(zb - cz).max()) > 1e8:
                 return
             err = float(np.max(np.abs(za - zb)))
-            zmax = max(float(np.max(np.abs(np.concatenate([np.ravel(s_.pos), np.ravel(s_.mom)])))) for s_ in fwd)
-            lim = max(k, 1) * tol1 * (1.0 + zmax) * (10.0 if not explicit else 1.0)
-            if err > lim and not hasattr(system, "constr"):
+            zmax = max(float(np.max(np.abs(np.concatenate([np.ravel(s_.pos), np.ravel(s_.mom)]) - cz))) for s_ in fwd)
+            lim = max(k, 1) * (tol1 * (1.0 + zmax) * (10.0 if not explicit else 1.0) + 1e-11 * float(np.max(np.abs(cz))))
+            if err > lim:
                 L = fs.sensitivity(integ, fwd[-1], np.concatenate([np.ravel(rev[k].pos), np.ravel(rev[k].mom)]), n=k) if k else 1.0
                 if L is None:
                     stats["lattice_inconclusive"] = stats.get("lattice_inconclusive", 0) + 1
@@ -165,6 +186,7 @@ def run_scenario(scn):
     viols = []
     c = ctx.counters
     stats = {"chains": 1, "steps": c.get("steps", 0), "steps_ok": c.get("steps_ok", 0), "reversal_checks": c.get("reversal_checks", 0),
+             "reversal_checks_translated": c.get("reversal_checks_translated", 0), "translated_chains": int(bool(scn["system"].get("translated"))),
              "reversal_inconclusive": c.get("reversal_inconclusive", 0), "reversal_amplified": c.get("reversal_amplified", 0), "reversal_out_of_range": c.get("reversal_out_of_range", 0),
              "step_errors": {k.split(":", 1)[1]: v for k, v in c.items() if k.startswith("step_errors:")},
              "fired": {k.split(":", 1)[1]: v for k, v in c.items() if k.startswith("fired:")},
